@@ -21,8 +21,8 @@ import (
 // Re-exported identifiers (only what the redirected files and plausible
 // repairs of them use).
 type (
-	FileMode = os.FileMode
-	FileInfo = os.FileInfo
+	FileMode  = os.FileMode
+	FileInfo  = os.FileInfo
 	PathError = os.PathError
 )
 
@@ -59,7 +59,9 @@ type Crash struct {
 	Op   string
 }
 
-func (c Crash) String() string { return fmt.Sprintf("simulated kill at disk step %d (%s)", c.Step, c.Op) }
+func (c Crash) String() string {
+	return fmt.Sprintf("simulated kill at disk step %d (%s)", c.Step, c.Op)
+}
 
 type StepRec struct {
 	N    int    `json:"n"`
